@@ -389,7 +389,7 @@ def units(tier):
             us.append({"name": "%s sync L=5" % fn, "fn": diff, "params": {"fn": fn, "kind": "sync", "L": 5}, "budget_s": 1500})
     # sources that are asynchronous iterables but not iterators (a fresh traversal per __aiter__ call)
     for fn in FUNCS:
-        ll = 2 if quick else 3
+        ll = 2 if quick else (3 if fn in heavy else 4)
         us.append({"name": "%s aiterable L=%d" % (fn, ll), "fn": diff, "params": {"fn": fn, "kind": "aiterable", "L": ll}, "budget_s": 240 if quick else 1200})
     for nc in ((2,) if quick else (2, 3)):
         for kind in ("sync", "async"):
